@@ -67,6 +67,15 @@ class SerM:
     outer: Optional[Cons] = None  # return annotation wrapped: Annotated[<ret or the union>, schema(**outer)]
     conv: Optional[Conv] = None  # serialized(conversion=...)
     on_error: Optional[str] = None  # serialized(error_handler=...): key of HANDLERS ("none": error_handler=None)
+    order: Optional[int] = None  # serialized(order=order(n))
+    # False: the subclass overrides the python method / property of an inherited serialized method WITHOUT
+    # decorating it again ("Overriding of a serialized method in a subclass will also override the serialization")
+    decorated: bool = True
+
+    @property
+    def key(self) -> str:
+        """the name under which the method is registered and emitted (before the dynamic aliaser)"""
+        return self.alias if self.alias is not None else self.name
 
 
 @dataclass(frozen=True)
@@ -445,10 +454,12 @@ def _realize_sobj(td: SObj, realm: Realm):
             if when == "post":
                 lines += [f"        if {n} is not _NOT_GIVEN:", f"            self.{n} = {n}"]
     after: List[str] = []
-    inherited = {m.name for m in getattr(realm.descs.get(td.base), "serialized", ())} if td.base else set()
+    # `serialized` lists the EFFECTIVE methods of the class (the most-derived definition of each key);
+    # those identical to a base's are inherited, the others are declared here (new ones and overrides)
+    inherited = set(getattr(realm.descs.get(td.base), "serialized", ())) if td.base else set()
     for sm in td.serialized:
-        if sm.name in inherited:
-            continue  # inherited serialized methods are listed in the description, not re-declared
+        if sm in inherited:
+            continue
         _prebuild(sm.ret, realm)
         ret = _rtype(sm.ret, realm)
         if sm.undefined:
@@ -464,12 +475,17 @@ def _realize_sobj(td: SObj, realm: Realm):
             skw["conversion"] = conversion_object(sm.conv, realm)
         if sm.on_error is not None:
             skw["error_handler"] = _handler(sm.on_error)
+        if sm.order is not None:
+            from apischema import order as ap_order
+
+            skw["order"] = ap_order(sm.order)
         ns[f"_k_{td.name}_{sm.name}"] = skw
         deco = f"@_serialized(**_k_{td.name}_{sm.name})" if skw else "@_serialized"
         if sm.kind == "function":
             after += [deco, f"def {sm.name}(obj: {td.name}) -> _r_{td.name}_{sm.name}:", f"    return _b_{td.name}_{sm.name}(obj)"]
             continue
-        lines.append("    " + deco)
+        if sm.decorated:
+            lines.append("    " + deco)
         if sm.kind == "property":
             lines.append("    @property")
         lines.append(f"    def {sm.name}(self) -> _r_{td.name}_{sm.name}:")
@@ -538,6 +554,15 @@ def tracks(td, realm: Realm) -> bool:
             return True
         td = realm.descs.get(getattr(td, "base", None))
     return False
+
+
+def derive(base: Tuple[SerM, ...], *own: SerM) -> Tuple[SerM, ...]:
+    """the effective serialized methods of a subclass declaring `own`: a method registered under a key
+    already used by a base replaces it (the most-derived definition wins, emitted once, at the place
+    of ... -- the position is not part of C04), the others are added after the inherited ones"""
+    keys = {m.key: m for m in own}
+    out = [keys.pop(m.key) if m.key in keys else m for m in base]
+    return tuple(out) + tuple(m for m in own if m.key in keys)
 
 
 def field_type(f: Fld) -> TD:
@@ -758,7 +783,7 @@ class RefSer:
             if x is _undefined() or (x is None and o.exclude_none):
                 continue
             # "the resulting serialization type will be a Union of the normal type and the error handling type"
-            res[o.alias(sm.alias if sm.alias is not None else sm.name)] = self.ser_any(x) if handled else self.ser(sm.ret, x, sm.conv)
+            res[o.alias(sm.key)] = self.ser_any(x) if handled else self.ser(sm.ret, x, sm.conv)
         if typed_dict and o.additional_properties:
             names = {f.name for f in td.fields}
             for k, x in v.items():
